@@ -197,7 +197,29 @@ func WriteCBOR(b []byte, v Val, d *Departure) []byte {
 		return append(appendHead(b, major, uint64(len(v.S)), 0), v.S...)
 	case 'l':
 		if hit {
-			switch r.Intn(5) {
+			switch r.Intn(8) {
+			case 5:
+				d.Kind = "link-extra-zero-prefix"
+				b = append(b, 0xd8, 0x2a)
+				z := 2 + r.Intn(3)
+				b = appendHead(b, 2, uint64(len(v.S)+z), 0)
+				for i := 0; i < z; i++ {
+					b = append(b, 0)
+				}
+				return append(b, v.S...)
+			case 6:
+				d.Kind = "link-tag-with-low-byte-42"
+				b = append(b, 0xd9, byte(1+r.Intn(255)), 0x2a) // tags 298, 554, …: not tag 42
+				return append(append(appendHead(b, 2, uint64(len(v.S))+1, 0), 0), v.S...)
+			case 7:
+				d.Kind = "link-only-zero-bytes"
+				b = append(b, 0xd8, 0x2a)
+				z := 1 + r.Intn(3)
+				b = appendHead(b, 2, uint64(z), 0)
+				for i := 0; i < z; i++ {
+					b = append(b, 0)
+				}
+				return b
 			case 0:
 				d.Kind = "link-no-multibase-prefix"
 				b = append(b, 0xd8, 0x2a)
